@@ -73,14 +73,7 @@ def run_oracle_over(ctx, stream, ops):
 
 # Known finding of C07 (listed for the coordinator in notes/C07.md; a local copy is used until
 # known-findings.json carries the same fingerprint - BUILDING.md "test with a local copy of the entry").
-LOCAL_KNOWN = [{
-    "property_id": "C07",
-    "status": "known",
-    "fingerprint": "scope:dr-not-exported:legacy-merge-flag-off",
-    "what": ("with ENABLE_ENHANCED_DESTINATIONRULE_MERGE=false (legacy, non-default) mergeDestinationRule consolidates "
-             "DestinationRules of one host and namespace regardless of exportTo, so a rule exported to ns2 only is merged into a "
-             "public rule and shapes the clusters of proxies in ns3 (O4; Lean witness dr_export_legacy_merge_witness)"),
-}]
+LOCAL_KNOWN = []  # every known finding lives in /verif/known-findings.json
 
 
 def add_local_known(ctx):
